@@ -85,4 +85,38 @@ example : (demo.kids.filter fun c => elemMatch c [demo.scope] (some "a") none).m
           (demo.kids.filter fun c => elemMatch c [demo.scope] (some "a") (some (some "urn:p"))).map Elem.id = [4] := by
   decide
 
+/-! ### lookups by path -/
+
+/-- `getChildren` returns exactly the matching children, in document order. -/
+theorem getChildren_exact (e : Elem) (ctx : Ctx) (q : String) :
+    getChildren e ctx (some q) =
+      e.kids.filter (fun c => elemMatch c (e.scope :: ctx) (nsArg e ctx q).1 (nsArg e ctx q).2) := rfl
+
+/-- **A path with a missing step finds nothing** (it never falls back to the children of the node
+where the walk stopped). -/
+theorem childrenAtPath_missing_step (e : Elem) (ctx : Ctx) (steps : List String) (leaf : String)
+    (h : walkPath e ctx steps = none) : childrenAtPath e ctx (steps ++ [leaf]) = [] := by
+  simp [childrenAtPath, h]
+
+/-- **A complete path returns exactly the children of the node it leads to that match the last
+step** - name and, for a prefixed step, the namespace the prefix has there - in document order. -/
+theorem childrenAtPath_exact (e : Elem) (ctx : Ctx) (steps : List String) (leaf : String) (node : Elem) (c : Ctx)
+    (h : walkPath e ctx steps = some (node, c)) :
+    childrenAtPath e ctx (steps ++ [leaf]) =
+      node.kids.filter (fun k => elemMatch k (node.scope :: c) (nsArg node c leaf).1 (nsArg node c leaf).2) := by
+  simp [childrenAtPath, h, getChildren]
+
+/-- A one-step path is `getChildren`. -/
+theorem childrenAtPath_single (e : Elem) (ctx : Ctx) (leaf : String) :
+    childrenAtPath e ctx [leaf] = getChildren e ctx (some leaf) := by
+  simp [childrenAtPath, walkPath]
+
+/-- Each step of the walk takes the first matching child of the node reached so far. -/
+theorem walkPath_step (e : Elem) (ctx : Ctx) (name : String) (rest : List String) (r : Elem)
+    (h : getChild e ctx name = some r) : walkPath e ctx (name :: rest) = walkPath r (e.scope :: ctx) rest := by
+  simp [walkPath, h]
+
+/-! (worked instances of the path lookups are in the correspondence: `splitPrefix` goes through
+`String.splitOn`, which `decide` does not reduce) -/
+
 end Suds.Props.C19
